@@ -207,17 +207,21 @@ def createEnter (env : Env) (depth : Nat) (ro : Bool) (self : Addr) (value : Nat
   let w4 := w3.transfer self addr value
   .enter w2 w4 addr ro true
 
-/-- the tail of `create`: code deposit, the revert condition
+/-- code deposit of `create`: `SetCode` when the init code succeeded and its return data can be
+    paid for, `ErrCodeStoreOutOfGas` when it cannot -/
+def createStored (addr : Addr) (r : Result) : World × Option Err :=
+  if r.err.isNone && !(r.ret == .huge) then
+    match r.ret with
+    | .code t => (r.world.setCode addr (.deployed t), none)
+    | .big => (r.world, some .codeStoreOutOfGas)
+    | _ => (r.world.setCode addr .empty, none)
+  else (r.world, r.err)
+
+/-- the tail of `create`: code deposit, then the revert condition
     `maxCodeSizeExceeded || (err != nil && err != ErrCodeStoreOutOfGas)`. -/
 def createExit (env : Env) (saved : World) (addr : Addr) (r : Result) : Result :=
   let maxEx := r.ret == .huge
-  let stored : World × Option Err :=
-    if r.err.isNone && !maxEx then
-      match r.ret with
-      | .code t => (r.world.setCode addr (.deployed t), none)
-      | .big => (r.world, some .codeStoreOutOfGas)
-      | _ => (r.world.setCode addr .empty, none)
-    else (r.world, r.err)
+  let stored := createStored addr r
   let err := stored.2
   let w := if maxEx || (err.isSome && err != some .codeStoreOutOfGas) then env.rv saved stored.1
            else stored.1
